@@ -855,17 +855,21 @@ func (node *IndividualNode) UniqueIDs() (nodes []*UniqueIDNode) {
 // some applications.
 func (node *IndividualNode) UniqueIdentifiers() *StringSet {
 	if node.cachedUniqueIDs == nil {
-		node.cachedUniqueIDs = NewStringSet()
+		// Only publish the set once it is complete. Compare asks for it from
+		// several goroutines and must never see a partially filled set.
+		uniqueIDs := NewStringSet()
 
 		for _, id := range node.UniqueIDs() {
 			if uuid, err := id.UUID(); err == nil {
-				node.cachedUniqueIDs.Add(uuid.String())
+				uniqueIDs.Add(uuid.String())
 			}
 		}
 
 		for _, id := range node.FamilySearchIDs() {
-			node.cachedUniqueIDs.Add(id.String())
+			uniqueIDs.Add(id.String())
 		}
+
+		node.cachedUniqueIDs = uniqueIDs
 	}
 
 	return node.cachedUniqueIDs
